@@ -210,7 +210,8 @@ impl Check for C15 {
                 let fv = full[order[ci]][px] as f64;
                 for (got, maxv, name) in [(b16[k] as f64, 65535.0, "u16"), (b8[k] as f64, 255.0, "u8")] {
                     let r = (fv * maxv).clamp(0.0, maxv);
-                    if (got - r).abs() > 0.5 + 2e-3 * maxv / 255.0 {
+                    // the library rounds in f32: val * max + 0.5 carries at most ~2 ulp(max) of error (0.008 at 65535)
+                    if (got - r).abs() > 0.5 + 3e-7 * maxv {
                         fail(&mut o, &format!("stream-{name}-rounding"), format!("stream channel {ci} pixel {px}: float {fv} -> {name} {got}, expected round({r})"));
                         return o;
                     }
